@@ -161,6 +161,7 @@ class CharPruner:
         self.handed_back = 0
         self._vcache: Dict[str, frozenset] = {}
         self._pcache: Dict[str, frozenset] = {}
+        self._ccache: Dict[str, Any] = {}
         self._nodes = 0
 
     def feasible(self, conds: Sequence[Any], focus: Any = None) -> Optional[bool]:
@@ -248,6 +249,55 @@ class CharPruner:
             cube[v] = cube[v] & pts if v in cube else pts
         return cube
 
+    def _to_cubes(self, t: Any, cap: int) -> Optional[List[Dict[str, frozenset]]]:
+        """t in disjunctive normal form over single-variable constraints (a list of cubes), or None when t contains an
+        atom over several variables or the expansion exceeds `cap` cubes.  A subformula over ONE variable is a literal
+        whatever its boolean structure (it is evaluated pointwise)."""
+        key = self._key(t)
+        hit = self._ccache.get(key, 0)
+        if hit != 0:
+            return hit
+        vs = self._tvars(t, key)
+        res: Optional[List[Dict[str, frozenset]]]
+        if len(vs) == 0:
+            res = [{}] if ev(t, {}) else []
+        elif len(vs) == 1:
+            v = next(iter(vs))
+            pts = self._points(t, key, v)
+            res = [{v: pts}] if pts else []
+        elif isinstance(t, list) and t and t[0] == "or":
+            res = []
+            for d in t[1:]:
+                c = self._to_cubes(d, cap)
+                if c is None or len(res) + len(c) > cap:
+                    res = None
+                    break
+                res.extend(c)
+        elif isinstance(t, list) and t and t[0] == "and":
+            res = [{}]
+            for d in t[1:]:
+                c = self._to_cubes(d, cap)
+                if c is None or len(res) * max(len(c), 1) > cap:
+                    res = None
+                    break
+                nxt = []
+                for a in res:
+                    for b in c:
+                        m = dict(a)
+                        ok = True
+                        for v, s_ in b.items():
+                            m[v] = m[v] & s_ if v in m else s_
+                            if not m[v]:
+                                ok = False
+                                break
+                        if ok:
+                            nxt.append(m)
+                res = nxt
+        else:
+            res = None
+        self._ccache[key] = res
+        return res
+
     def _solve(self, cj0: List[Any]) -> Optional[bool]:
         full = frozenset(self.dom)
         cand: Dict[str, frozenset] = {}
@@ -279,11 +329,11 @@ class CharPruner:
                             st2.extend(d[1:])
                         else:
                             ds.append(d)
-                    cubes = [self._as_cube(d) for d in ds]
-                    if any(c is None for c in cubes):
+                    cubes = self._to_cubes(t, 256)
+                    if cubes is None:
                         multi.append((t, vs))
                     else:
-                        ors.append([c for c in cubes if c is not None])
+                        ors.append(cubes)
                 else:
                     multi.append((t, vs))
         except Unsupported:
